@@ -30,6 +30,23 @@ def gen_histories(ctx, label, n):
             yield dict(text=instgen.render(ast), na=ast['na'], twopl=twopl, pc=pc, stab=stab, bf=bf,
                        crits=[[c, x] for c, x in crits], argv=argv, history=hist, ast=ast)
             continue
+        if i % 7 == 3:
+            # unusual but importable instances (a lecturer's target above its upper quota, zero capacities) with the
+            # load-balancing criteria; every getter before and after every other one, then a re-solve
+            ast = instgen.gen_ast(rng, na=3, maxS=4, maxP=3, maxL=3)
+            k = rng.randrange(len(ast['lecturers']))
+            ast['lecturers'][k][1] = ast['lecturers'][k][2] + rng.randint(1, 2)
+            twopl, bf, pc = rng.random() < 0.5, False, rng.random() < 0.3
+            stab = False
+            crits = lpcommon.gen_crits(rng, ast, names=rng.choice([['lsb'], ['maxsize', 'lsb'], ['lmb'], ['maxsize', 'mincost', 'lsb'],
+                                                                    ['mincostlsb'], []]))
+            argv = lpcommon.argv_of(3, twopl, pc, stab, crits, rng)
+            gs = OPS[1:]
+            rng.shuffle(gs)
+            hist = [['solve', None, 0]] + [[g] for g in gs] + [[g] for g in gs] + [['solve', None, 0], [gs[0]], [gs[1]]]
+            yield dict(text=instgen.render(ast), na=3, twopl=twopl, pc=pc, stab=stab, bf=bf,
+                       crits=[[c, x] for c, x in crits], argv=argv, history=hist, ast=ast)
+            continue
         if i % 5 == 4:
             # the same getter several times in a row, other getters in between (a getter must not change what a later
             # call of itself or of another getter returns); capacities above one so that listings have several entries
